@@ -159,7 +159,7 @@ pub fn decode_jitter(data: &[u8]) -> (c12::Case, Vec<c16::HOp>) {
         deltas.push(delta(&mut u));
     }
     let salt = deltas.len() as u64 ^ 0x5eed;
-    (c12::Case { prog: TimerProg { start, segs: vec![Seg::Lit(deltas)], salt }, rounds0, ops, first_result: None, first_relation: None }, hops)
+    (c12::Case { prog: TimerProg { start, segs: vec![Seg::Lit(deltas)], salt }, rounds0, ops, first_result: None, first_relation: None, first_stage: None }, hops)
 }
 
 pub fn decode_timer(data: &[u8]) -> c13::Case {
@@ -222,7 +222,7 @@ pub fn oracle_hist(prop: &str, data: &[u8]) -> Vec<Outcome> {
     let mut v = Vec::new();
     match prop {
         "C05" => v.push(g(format!("hist/{}", name), c05::HistCase { spec: h.spec, pre: h.pre, ops: outs_only }, &c05::check_hist)),
-        "C10" => v.push(g(format!("clone/{}", name), c10::CloneCase { spec: h.spec, pre: h.pre, hist, cont, into_existing: None }, &c10::check_clone)),
+        "C10" => v.push(g(format!("clone/{}", name), c10::CloneCase { spec: h.spec, pre: h.pre, hist, cont, into_existing: None, lineage: None }, &c10::check_clone)),
         "C11" => {
             if h.spec.ty().info().serde {
                 v.push(g(format!("snapshot/{}", name), c11::Case { spec: h.spec, pre: h.pre, hist, json: h.json, cont }, &c11::check));
